@@ -128,6 +128,21 @@ func lsMonitor(cw *caseWriter, tag string, in, obs []uint64) {
 	}
 	lastAtElection := max64(ns.sc[sLastLogIdx], ns.sc[sLastSnapIdx])
 	var maxAckIdx uint64
+	// number of in-flight futures and the latest configuration, from the last state seen
+	inflightOf := func(st *nsState) int {
+		r := st.rest
+		if len(r) < 3 {
+			return 0
+		}
+		nm := int(r[2])
+		q := 3 + 2*nm
+		if q >= len(r) {
+			return 0
+		}
+		return int(r[q])
+	}
+	prevInflight := inflightOf(ns)
+	latest := ns.latest
 	for i, o := range parts[1:] {
 		if i >= len(ops) || len(o) == 0 {
 			break
@@ -149,10 +164,40 @@ func lsMonitor(cw *caseWriter, tag string, in, obs []uint64) {
 				q = skipTrace(o, q)
 			}
 			if ls := parseState(o[q:]); ls != nil && len(ls.rest) >= 2 {
+				if k == 5 && o[1] != 1 {
+					// restoreUserSnapshot went past its precondition: every future that was in flight must have been failed with ErrAbortedByRestore
+					nf := int(o[2])
+					aborted := 0
+					for j := 0; j < nf; j++ {
+						if o[3+4*j+2] == 6 {
+							aborted++
+						}
+					}
+					if aborted != prevInflight {
+						cw.monitor("C20", tag, "restore-did-not-abort-every-inflight-future", "op %d: %d futures were in flight when the restore ran, %d were failed with ErrAbortedByRestore", i, prevInflight, aborted)
+						cw.monitor("C17", tag, "restore-left-inflight-future-unanswered", "op %d: %d futures were in flight when the restore ran, only %d were answered", i, prevInflight, aborted)
+					}
+				}
+				prevInflight = inflightOf(ls)
+				latest = ls.latest
 				ci := ls.rest[0]
 				if ci != 0 && ci <= lastAtElection {
 					cw.monitor("C03", tag, "commit-index-on-old-term-entry-without-own-term-entry", "op %d: the leader's commit index moved to %d, its last index at election was %d (nothing of its own term is committed yet)", i, ci, lastAtElection)
 					cw.monitor("C05", tag, "commit-index-on-old-term-entry-without-own-term-entry", "op %d: commit index %d <= last index at election %d", i, ci, lastAtElection)
+				}
+			}
+		}
+		if k == 6 && len(o) >= 5 {
+			// VerifyLeader is registered with voters of the latest configuration only
+			for _, id := range o[5 : 5+int(o[4])] {
+				isVoter := false
+				for _, sv := range latest {
+					if sv.id == id && sv.suff == 0 {
+						isVoter = true
+					}
+				}
+				if !isVoter {
+					cw.monitor("C09", tag, "verify-registered-with-non-voter", "op %d: VerifyLeader registered with server %d, which is not a voter of the latest configuration", i, id)
 				}
 			}
 		}
